@@ -100,6 +100,31 @@ Proof.
   cbn [fst snd] in Hk, Hp. subst kw ps. cbn [parse_lines length]. rewrite (handle_valid e nums words He Hv), IH. reflexivity.
 Qed.
 
+(* the three diagnostic modes (Shelxfile.parse_cards: one try/except around the card loop): an exception ends the parsing silently in quiet
+   mode, is reported in verbose mode and propagates in debug mode.  The outcome records how many lines were processed or where it raised. *)
+Inductive mode := Quiet | Verbose | Debug.
+Inductive outcome := Done (processed : nat) | Raises (line : nat).
+Fixpoint parse_mode (m : mode) (ls : list (string * list str)) (k : nat) : outcome :=
+  match ls with
+  | [] => Done k
+  | (kw, ps) :: r => if handle kw ps then parse_mode m r (S k) else match m with Debug => Raises k | _ => Done k end
+  end.
+
+(* valid input: every mode processes every line, none raises, so the three runs see the same instructions *)
+Theorem parse_modes_agree (ls : list (string * list str)) : Forall valid_line ls -> forall m k, parse_mode m ls k = Done (k + length ls).
+Proof.
+  induction 1 as [|[kw ps] r (e & nums & words & He & Hk & Hp & Hv) _ IH]; intros m k; cbn [parse_mode length]; [f_equal; lia|].
+  cbn [fst snd] in Hk, Hp. subst kw ps. rewrite (handle_valid e nums words He Hv), IH. f_equal. lia.
+Qed.
+
+(* whatever the text: outside debug mode the card loop does not raise (the model of the try/except; that an instruction the model
+   rejects raises in debug mode and ends the parse silently in quiet mode is what the grid correspondence observes) *)
+Theorem quiet_never_raises (ls : list (string * list str)) m : m <> Debug -> forall k, exists n, parse_mode m ls k = Done n.
+Proof.
+  intros Hm. induction ls as [|[kw ps] r IH]; intros k; cbn [parse_mode]; [eexists; reflexivity|].
+  destruct (handle kw ps); [apply IH|]. destruct m; [eexists; reflexivity | eexists; reflexivity | contradiction].
+Qed.
+
 (* names: a token starting with a letter or '$' is a word for both parsers *)
 Definition name_start (c : ascii) : bool := is_upper c || is_lower c || Ascii.eqb c "$"%char.
 Lemma name_is_word c r : name_start c = true -> word_ok (c :: r) = true.
